@@ -1,4 +1,4 @@
-import PkVerif.Spec.RefMap
+import PkVerif.Spec.Faults
 import PkVerif.Model.MergedEnum
 /-!
 # Models of the storage combinators (C01)
@@ -155,10 +155,13 @@ def proxyImpl (origin cache : Impl) (max : Nat) : Impl where
           ((os1, cs2, b2), .sized n)
         | (cs1, _) => ((os1, cs1, b), .sized n)
       | (os1, _) => ((os1, cs, b), .err)
-    | .rm k =>                                        -- proxycache.go:243
-      match cache.step cs (.rm k), origin.step os (.rm k) with
-      | (cs1, .ok), (os1, .ok) => ((os1, cs1, b), .ok)
-      | (cs1, _), (os1, _) => ((os1, cs1, b), .err)
+    | .rm k =>                                        -- proxycache.go RemoveBlobs: cache first, then origin
+      match cache.step cs (.rm k) with
+      | (cs1, .ok) =>
+        match origin.step os (.rm k) with
+        | (os1, .ok) => ((os1, cs1, b), .ok)
+        | (os1, _) => ((os1, cs1, b), .err)
+      | (cs1, _) => ((os, cs1, b), .err)
     | .enum after limit =>                            -- proxycache.go:255
       match origin.step os (.enum after limit) with
       | (os1, o) => ((os1, cs, b), o)
@@ -257,12 +260,16 @@ def replica2Impl (a b : Impl) : Impl where
       match a.step sa (.recv k v), b.step sb (.recv k v) with
       | (sa1, .sized n), (sb1, .sized n') => ((sa1, sb1), if n = n' then .sized n else .err)
       | (sa1, _), (sb1, _) => ((sa1, sb1), .err)
-    | .fetch k =>                                     -- replica.go:137: first read replica that has it
-      match a.step sa (.fetch k) with
+    | .fetch k =>                                     -- replica.go Fetch: first read replica that has it;
+      match a.step sa (.fetch k) with                 -- a replica's failure outranks a later "not exist"
       | (sa1, .bytes v) => ((sa1, sb), .bytes v)
-      | (sa1, _) =>
+      | (sa1, .notExist) =>
         match b.step sb (.fetch k) with
         | (sb1, o) => ((sa1, sb1), o)
+      | (sa1, _) =>
+        match b.step sb (.fetch k) with
+        | (sb1, .bytes v) => ((sa1, sb1), .bytes v)
+        | (sb1, _) => ((sa1, sb1), .err)
     | .stat k =>                                      -- replica.go:149: first reporter wins
       match a.step sa (.stat k), b.step sb (.stat k) with
       | (sa1, .sized n), (sb1, .sized _) => ((sa1, sb1), .sized n)
@@ -308,7 +315,8 @@ inductive Cfg where
   | shard2 (a b : Cfg)
   | replica2 (a b : Cfg)
   | cond2 (t e : Cfg)
-deriving Repr, DecidableEq
+  | faulty (sched : List Fault) (c : Cfg) -- `c` behind a schedule of transient failures (C13)
+  | leaf (I : Impl)                       -- any other leaf model (files, diskpacked, …) given directly
 
 /-- the model of a configuration; `route` = shard routing, `isSchema` = cond's sniffing predicate -/
 def interp (route : Bytes → Bool) (isSchema : Bytes → Bool) : Cfg → Impl
@@ -320,6 +328,8 @@ def interp (route : Bytes → Bool) (isSchema : Bytes → Bool) : Cfg → Impl
   | .shard2 a b => shard2Impl route (interp route isSchema a) (interp route isSchema b)
   | .replica2 a b => replica2Impl (interp route isSchema a) (interp route isSchema b)
   | .cond2 t e => cond2Impl isSchema (interp route isSchema t) (interp route isSchema e)
+  | .faulty sched c => faultLeaf (interp route isSchema c) sched
+  | .leaf I => I
 
 /-- supported compositions: an evicting cache appears only as the cache of a proxycache -/
 def Cfg.WF : Cfg → Bool
@@ -332,5 +342,7 @@ def Cfg.WF : Cfg → Bool
   | .shard2 a b => a.WF && b.WF
   | .replica2 a b => a.WF && b.WF
   | .cond2 t e => t.WF && e.WF
+  | .faulty _ _ => false
+  | .leaf _ => false
 
 end Pk.Stores
